@@ -50,6 +50,9 @@ def base_family(observer=None):
     add("E_default_caps", [S(0, 3, True, True)], agents(3, 0, prog_n=[[1], [2], [7]]))
     add("F_only_hft", [S(0, 2, True, True, maxNormalOrders=2, maxHighFrequencyOrders=2)], agents(0, 2))
     # a round of >= 4 fills: book crossed during a no-execution session, cleared by the first order of the next
+    g_ags = agents(3, 0, menu_n=MENU_X, prog_n=[[3, 1, 3], [4, 4, 2], [3, 4, 0]])
+    g_ags[1]["rebind_holdings"] = True
+    add("G2_crossed_then_cleared_holdings_rebound", [S(0, 3, True, False, maxNormalOrders=3), S(1, 2, True, True, maxNormalOrders=1)], g_ags)
     add("G_crossed_then_cleared", [S(0, 3, True, False, maxNormalOrders=3), S(1, 2, True, True, maxNormalOrders=1)],
         agents(3, 0, menu_n=MENU_X, prog_n=[[3, 1, 3], [4, 4, 2], [3, 4, 0]]))
     # expiries, incl. at the very last clock step; cancels of dead orders; self-trades
@@ -79,10 +82,13 @@ def base_family(observer=None):
         markets=[dict(name="M0"), dict(name="M1")],
         events={"halt": {"class": "TradingHaltRule", "targetMarkets": ["M0"], "triggerChangeRate": 0.01, "haltingTimeLength": 1}},
         meta=dict(halt_targets=["M0"]))
+    # a configured session of zero steps between two trading sessions
+    add("S_zero_step_session", [S(0, 2, True, True, maxNormalOrders=2), S(1, 0, True, True), S(2, 2, True, True, maxNormalOrders=1)], agents(2, 0))
     # agents that run out of cash and of shares: balances go below zero (nothing in the accounting model stops at zero)
     poor = agents(2, 1, menu_n=MENU_X, prog_n=[[3, 1, 3, 1], [4, 4, 2, 2]], prog_h=[[1, 5]])
     for a_ in poor:
         a_.update(cash=150, asset=1)
+    poor[0]["rebind_holdings"] = True  # one of them replaces its holdings containers in setup (after it was registered)
     add("R_agents_overdrawn", [S(0, 2, True, False, maxNormalOrders=2), S(1, 3, True, True, maxNormalOrders=2, maxHighFrequencyOrders=1)], poor)
     # the numeric settings int-typed, as a JSON configuration written without decimal points produces them
     add("P_int_typed_config", [S(0, 2, True, False, maxNormalOrders=2, maxHighFrequencyOrders=1, highFrequencySubmitRate=1),
